@@ -251,6 +251,9 @@ func parseTagText(s string) (tagText, error) {
 		v, err := strconv.ParseUint(h, 16, 64)
 		return tagText{4 * len(h), v}, err
 	}
+	if s == "_" { // constructor without a tag
+		return tagText{}, nil
+	}
 	return tagText{}, fmt.Errorf("no tag separator in %q", s)
 }
 
@@ -329,6 +332,38 @@ func (g *G) fillSum(v reflect.Value, depth int) error {
 		return fmt.Errorf("%s.%s: %w", t.Name(), f.Name, err)
 	}
 	return nil
+}
+
+// UnionCtors lists the constructor names and tag texts of a union struct type (nil for other types).
+func UnionCtors(t reflect.Type) (names, tags []string) {
+	if t.Kind() != reflect.Struct {
+		return nil, nil
+	}
+	if _, ok := t.FieldByName("SumType"); !ok {
+		return nil, nil
+	}
+	for _, f := range sumFields(t) {
+		names = append(names, f.Name)
+		tags = append(tags, f.Tag.Get("tlbSumType"))
+	}
+	return
+}
+
+// ValueWithCtor draws a value of union type t with the k-th constructor selected.
+func (g *G) ValueWithCtor(t reflect.Type, k, depth int) (reflect.Value, error) {
+	v := reflect.New(t).Elem()
+	f := sumFields(t)[k]
+	v.FieldByName("SumType").SetString(f.Name)
+	fv := v.FieldByName(f.Name)
+	if fv.Kind() == reflect.Pointer {
+		p := reflect.New(f.Type.Elem())
+		if err := g.fill(p.Elem(), "", depth-1); err != nil {
+			return v, err
+		}
+		fv.Set(p)
+		return v, nil
+	}
+	return v, g.fill(fv, "", depth-1)
 }
 
 func (g *G) cheapest(fields []reflect.StructField) int {
